@@ -459,6 +459,70 @@ def _s4_slice_contract(program, res):
                     f"SQL dialect and 'bc' on Pandas (str.slice(start, stop)); the two agree only for start = 0", rets[0])
 
 
+def _s5_if_else_missing(program, res):
+    """Pandas if_else: numpy.where gives an array of the branches' type (int, bool, fixed-width string); the documented None for a missing
+    condition can be stored only after the array was given a type that can hold it"""
+    import ast as _ast
+    m = program.method("pandas_base", "PandasModelBase", "_if_else_expr", inherited=False)
+    res.analysed(m)
+    where_vars = {st.targets[0].id for st in _ast.walk(m.node) if isinstance(st, _ast.Assign) and isinstance(st.targets[0], _ast.Name)
+                  and isinstance(st.value, _ast.Call) and (dotted_name(st.value.func) or "").endswith("where")}
+    if not where_vars:
+        raise AnalysisError("_if_else_expr: numpy.where(...) result not found")
+    stores = [st for st in _ast.walk(m.node) if isinstance(st, _ast.Assign) and isinstance(st.targets[0], _ast.Subscript)
+              and isinstance(st.targets[0].value, _ast.Name) and st.targets[0].value.id in where_vars
+              and (isinstance(st.value, _ast.Constant) and st.value.value is None or "nan" in unparse(st.value).lower())]
+    if not stores:
+        res.fail_at("C05-S5", m, "if-else-missing-condition-not-propagated", "_if_else_expr no longer stores a missing value where the condition is missing (documented: if_else(None, 1, 2) -> None)")
+        return
+    retyped = {st.targets[0].id for st in _ast.walk(m.node) if isinstance(st, _ast.Assign) and isinstance(st.targets[0], _ast.Name) and st.targets[0].id in where_vars
+               and isinstance(st.value, _ast.Call) and (isinstance(st.value.func, _ast.Attribute) and st.value.func.attr == "astype"
+                                                         or any(kw.arg == "dtype" for kw in st.value.keywords))}
+    bad = [st for st in stores if st.targets[0].value.id not in retyped]
+    if bad:
+        res.fail_at("C05-S5", m, "if-else-none-into-typed-array",
+                    f"`{unparse(bad[0])}` writes None into the array numpy.where returned, whose type is that of the branches: with string branches the cell becomes the text "
+                    f"'Non', with bool branches False, with int branches the store raises TypeError (the docstring's own if_else(None, 1, 2)); SQLite and Polars return null", bad[0])
+    else:
+        res.ok("C05-S5", "Pandas if_else gives the result a type that can hold a missing value before storing one")
+
+
+def _s6_concat_missing(program, res):
+    """Pandas concat: numpy.asarray(x, dtype=str) spells a missing value as the text 'nan' / 'None'; string concatenation with a missing
+    operand is missing on SQL (||, CONCAT of NULL) and Polars — the implementation has to look at the operands' nulls"""
+    import ast as _ast
+    pm = program.method("pandas_base", "PandasModelBase", "_populate_impl_map", inherited=False)
+    entry = None
+    for d_ in _ast.walk(pm.node):
+        if isinstance(d_, _ast.Dict):
+            for k, v in zip(d_.keys, d_.values):
+                if isinstance(k, _ast.Constant) and k.value == "concat":
+                    entry = v
+    if entry is None:
+        raise AnalysisError("Pandas impl_map: entry for concat not found")
+    body = entry
+    if isinstance(entry, _ast.Lambda) and isinstance(entry.body, _ast.Call) and isinstance(entry.body.func, _ast.Attribute) \
+            and isinstance(entry.body.func.value, _ast.Name) and entry.body.func.value.id == "self":
+        tgt = program.method("pandas_base", "PandasModelBase", entry.body.func.attr)
+        if tgt is not None:
+            body = tgt.node
+            res.analysed(tgt)
+    elif isinstance(entry, _ast.Attribute) and unparse(entry.value) == "self":
+        tgt = program.method("pandas_base", "PandasModelBase", entry.attr)
+        if tgt is not None:
+            body = tgt.node
+            res.analysed(tgt)
+    txt = unparse(body)
+    to_text = "dtype=str" in txt or "astype(str)" in txt
+    looks_at_nulls = any(w in txt for w in ("isnull", "isna", "bad_column_positions", "notnull"))
+    if to_text and not looks_at_nulls:
+        res.fail_at("C05-S6", pm, "concat-spells-missing-as-text",
+                    "Pandas `concat` converts both operands with dtype=str and adds the texts: a missing operand becomes the text 'nan' ('xy'.concat(None) gives 'xynan'); "
+                    "SQLite and Polars return null", entry)
+    else:
+        res.ok("C05-S6", "Pandas concat returns a missing value when an operand is missing")
+
+
 def run(program, res, tier):
     res.rule("C05-S1", "every catalogued (method, backend) marked 'y' resolves to an implementation of the right meaning")
     res.rule("C05-S2", "three-valued truth tables of the SQL templates equal the documented null contracts")
@@ -481,5 +545,9 @@ def run(program, res, tier):
     _s3(program, res, impl, tmeth)
     res.rule("C05-S4", "string slicing: SUBSTR's length argument is stop - start")
     _s4_slice_contract(program, res)
+    res.rule("C05-S5", "Pandas if_else returns a missing value for a missing condition, whatever the branch types")
+    _s5_if_else_missing(program, res)
+    res.rule("C05-S6", "Pandas concat does not spell a missing operand as text")
+    _s6_concat_missing(program, res)
     res.assumptions.append("SQLite/PostgreSQL built-in function lists and meaning vocabulary (sa/facts.py)")
     res.extra["sqlite_registered_functions"] = len(registered)
